@@ -395,6 +395,27 @@ Section AcctProofs.
     destruct ss' as [|a b]; [|discriminate]. destruct ss; [congruence|discriminate].
   Qed.
 
+  (* whatever the decoders are: a call whose tmp fits into max_length leaves
+     the carry-over buffer empty (this is what the harness checks on the real
+     codecs call by call) *)
+  Theorem clean_if_tmp_fits (st st' : dst) (ml : Z) (rd : nat) (out : bytes) :
+    clean st -> 0 <= ml ->
+    decompress dstep st ml rd = Ok (st', out) ->
+    tmp_len st st' out <= ml -> clean st'.
+  Proof.
+    intros (Hb & Hp & Hu) Hml H Hfit.
+    assert (Hinv : buf_inv st) by (unfold buf_inv; rewrite Hb, Hp, zlen_nil; split; [lia|exact Hu]).
+    destruct (decompress_spec_ml st st' ml rd out Hinv H)
+      as (data & tmp & Hcase & _ & _ & _ & _ & Hinv' & Hflow & _).
+    rewrite (tmp_len_eq st st' out tmp Hinv Hinv' Hflow) in Hfit.
+    destruct Hinv' as (_ & Hu').
+    unfold buf_case in Hcase. cbv zeta in Hcase. rewrite Hb, Hp, zlen_nil in Hcase.
+    destruct Hcase as [(Hr & Hb' & Hp' & _)|[(_ & Hb' & Hp' & _)|(Hr1 & Hr2 & _)]].
+    - unfold clean. rewrite Hb', Hp'. repeat split; [lia|exact Hu'].
+    - unfold clean. repeat split; assumption.
+    - lia.
+  Qed.
+
   (* ==== 1. every stage honours max_length ============================== *)
   Section Honour.
     (* [honest s]: the decoder in state s honours max_length (lzma, bz2, PPMd);
@@ -928,6 +949,28 @@ Proof.
            ltac:(lia) ltac:(lia) (mtoy_tame_step K) (mtoy_expansion K) calls st st' outs Hf Ht H).
 Qed.
 
+Theorem toy_first_stage_held_bounded (calls : list (Z * nat)) (s0 : toy_state) (t0 : list toy_state)
+        (us : list Z) (isz bsz : Z) (fp : bytes) (st' : dstate toy_state) (outs : bytes) :
+  0 <= isz ->
+  decompress_seq mtoy_dstep (init_state (s0 :: t0) us isz bsz fp) calls = Ok (st', outs) ->
+  exists s' t', stages st' = s' :: t' /\ mtoy_held s' <= mtoy_held s0 + consumed st' /\ consumed st' <= isz.
+Proof.
+  intros Hisz H.
+  destruct (first_stage_held_bounded toy_state mtoy_dstep mtoy_held mtoy_held_step (zlen fp) calls
+              (init_state (s0 :: t0) us isz bsz fp) st' outs s0 t0
+              (init_book_inv toy_state (s0 :: t0) us isz bsz fp) Hisz eq_refl H)
+    as (s' & t' & Hs & Hh & Hc).
+  exists s', t'. simpl in Hh, Hc. split; [exact Hs|]. split; lia.
+Qed.
+
+(* a lagging first stage behind small max_length: it holds input, never more than was read *)
+Example first_stage_held_applies :
+  exists st' outs,
+    decompress_seq mtoy_dstep (init_state [toy_st 3 4 []] [1000] 9 4 [1; 2; 3; 4; 5; 6; 7; 8; 9])
+                   [(4, 9%nat); (4, 9%nat)] = Ok (st', outs) /\
+    sum_held mtoy_held (stages st') = 6 /\ consumed st' = 8.
+Proof. eexists. eexists. split; [vm_compute; reflexivity|]. split; reflexivity. Qed.
+
 (* ---- the bound really depends on the ratio ------------------------------ *)
 (* one call on a fresh decompressor whose chain returns more than max_length *)
 Lemma decompress_fresh_overflow {S : Type} (dstep : S -> bytes -> Z -> S * bytes)
@@ -1182,6 +1225,7 @@ Theorem compress_negative_block_whole_member :
   = Ok ([(0, [])], [1; 2; 3; 4; 5; 6; 7; 8; 9; 10], 10, 20, [(10, 10)]).
 Proof. vm_compute. reflexivity. Qed.
 
+Print Assumptions clean_if_tmp_fits.
 Print Assumptions live_bytes_bounded.
 Print Assumptions worker_live_bounded.
 Print Assumptions clean_reachable.
@@ -1195,4 +1239,5 @@ Print Assumptions live_bytes_bounded_any_chain_refuted.
 Print Assumptions compress_live_bounded.
 Print Assumptions toy_live_bytes_bounded.
 Print Assumptions toy_carry_bounded.
+Print Assumptions toy_first_stage_held_bounded.
 Print Assumptions toy_compress_live_bounded.
